@@ -36,9 +36,10 @@ type rdEnt struct {
 }
 
 type dirInfo struct {
-	name string
-	lens []int
-	list []rdEnt // '.', '..', then host order
+	name  string
+	names []string // creation order, for directories made from an explicit name list
+	lens  []int
+	list  []rdEnt // '.', '..', then host order
 }
 
 type rdStep struct {
@@ -49,6 +50,7 @@ type rdStep struct {
 
 type readdirCase struct {
 	Lens      []int    `json:"name_lengths"`
+	Names     []string `json:"names,omitempty"` // explicit entry names in creation order (awkward-name directories)
 	Seq       []rdStep `json:"seq,omitempty"`
 	Traversal uint32   `json:"traversal_buf_len,omitempty"`
 	Prefix    int      `json:"prefix_calls,omitempty"` // with Mutation: traversal calls before the mutation
@@ -84,6 +86,75 @@ func makeDirNamed(root, name string, lens []int) *dirInfo {
 		must(fmt.Errorf("host listing of %s has %d entries, created %d", p, len(d.list)-2, len(lens)))
 	}
 	return d
+}
+
+// makeDirNames creates a directory from an explicit list of entry names, in this order (every third
+// entry a sub-directory, the others files).
+func makeDirNames(root, name string, names []string) *dirInfo {
+	p := filepath.Join(root, name)
+	must(os.MkdirAll(p, 0o755))
+	var lens []int
+	for j, n := range names {
+		if j%3 == 2 {
+			must(os.Mkdir(filepath.Join(p, n), 0o755))
+		} else {
+			must(os.WriteFile(filepath.Join(p, n), []byte{byte(j)}, 0o600))
+		}
+		lens = append(lens, len(n))
+	}
+	d := scanDir(root, name)
+	d.lens, d.names = lens, names
+	if len(d.list) != len(names)+2 {
+		must(fmt.Errorf("host listing of %s has %d entries, created %d", p, len(d.list)-2, len(names)))
+	}
+	return d
+}
+
+// awkwardDirs: directories populated with subsets of the awkward names (all subsets of size 0..2, a
+// sliding window of sizes 3 and 4), and three large directories (100 plain names + "..a" created
+// first / in the middle / last) that need more than one DirentCache batch.
+func awkwardDirs(root string) (small, big []*dirInfo) {
+	var ns []string
+	for _, n := range awkwardNames {
+		if n != ".." {
+			ns = append(ns, n)
+		}
+	}
+	var sets [][]string
+	sets = append(sets, nil)
+	for i := range ns {
+		sets = append(sets, []string{ns[i]})
+	}
+	for i := range ns {
+		for j := i + 1; j < len(ns); j++ {
+			sets = append(sets, []string{ns[i], ns[j]})
+		}
+	}
+	for _, k := range []int{3, 4} {
+		for i := range ns {
+			var set []string
+			for j := 0; j < k; j++ {
+				set = append(set, ns[(i+j)%len(ns)])
+			}
+			sets = append(sets, set)
+		}
+	}
+	for i, set := range sets {
+		small = append(small, makeDirNames(root, fmt.Sprintf("n%03d", i), set))
+	}
+	for i, pos := range []int{0, 50, 100} {
+		var names []string
+		for j := 0; j <= 100; j++ {
+			if j == pos {
+				names = append(names, "..a")
+			}
+			if j < 100 {
+				names = append(names, fmt.Sprintf("e%03d", j))
+			}
+		}
+		big = append(big, makeDirNames(root, fmt.Sprintf("big%d", i), names))
+	}
+	return
 }
 
 // scanDir reads the host's own view of a directory: raw listing order and inode numbers.
@@ -229,7 +300,7 @@ func runSeq(x *inst, d *dirInfo, seq []rdStep, loc *rdLocal, verbose bool) *rdVi
 	bad := func(st rdStep, field, detail string) *rdViolation {
 		return &rdViolation{sig: "fd_readdir:" + st.Kind + ":" + field,
 			what: fmt.Sprintf("directory with name lengths %v (host order %s), sequence %s: call (buf_len=%d, cookie=%d, %s): %s",
-				d.lens, listNames(d.list), seqString(seq), st.Buflen, st.Cookie, st.Kind, detail), c: readdirCase{Lens: d.lens, Seq: seq}}
+				d.lens, listNames(d.list), seqString(seq), st.Buflen, st.Cookie, st.Kind, detail), c: readdirCase{Lens: d.lens, Names: d.names, Seq: seq}}
 	}
 	for _, st := range seq {
 		r := x.readdir(fd, st.Buflen, st.Cookie)
@@ -297,7 +368,7 @@ func runSeq(x *inst, d *dirInfo, seq []rdStep, loc *rdLocal, verbose bool) *rdVi
 func openDir(x *inst, d *dirInfo) (int32, *rdViolation) {
 	r := x.do(&Op{K: "path_open", Fd: 3, P: d.name, Mode: "DIRECTORY"})
 	if r.Errno != 0 || r.Trap != "" {
-		return 0, &rdViolation{sig: "path_open:errno", what: fmt.Sprintf("path_open(3,%q,DIRECTORY) -> errno %d %s", d.name, r.Errno, r.Trap), c: readdirCase{Lens: d.lens}}
+		return 0, &rdViolation{sig: "path_open:errno", what: fmt.Sprintf("path_open(3,%q,DIRECTORY) -> errno %d %s", d.name, r.Errno, r.Trap), c: readdirCase{Lens: d.lens, Names: d.names}}
 	}
 	return int32(r.N), nil
 }
@@ -372,7 +443,7 @@ func traverse(x *inst, d *dirInfo, buflen uint32, loc *rdLocal, verbose bool) *r
 		return v
 	}
 	defer x.do(&Op{K: "fd_close", Fd: fd})
-	c := readdirCase{Lens: d.lens, Traversal: buflen}
+	c := readdirCase{Lens: d.lens, Names: d.names, Traversal: buflen}
 	v, _ = traverseFd(x, fd, d, buflen, -1, "fd_readdir:traversal:", c, loc, verbose)
 	if v == nil {
 		loc.traversals++
@@ -460,19 +531,37 @@ func readdirExplore(run *fw.Run, outcomes *fw.Counter, samples *fw.Sampler) rdSt
 		plans = []plan{{[]uint32{89}, 4}, {nil, 5}}
 	}
 	type task struct {
-		d *dirInfo
-		b uint32
+		d    *dirInfo
+		b    uint32
+		kind string // "seq": plans + traversal; "mut": part 2b; "nseq": awkward names, depth 3 + traversal; "big": traversal only
+		root string
 	}
 	var tasks []task
 	for _, d := range dirs {
 		for _, b := range bufs {
-			tasks = append(tasks, task{d, b})
+			tasks = append(tasks, task{d, b, "seq", root})
 		}
 	}
 	nSeqTasks := len(tasks)
 	for _, d := range dirs {
 		for _, b := range mutBufs {
-			tasks = append(tasks, task{d, b})
+			tasks = append(tasks, task{d, b, "mut", root})
+		}
+	}
+	// awkward names: on the BFS file system (tmpfs lists in reverse creation order, which places the
+	// awkward entry of the large directories last / in the middle / first)
+	nroot := filepath.Join(fastRoot, "rdn")
+	small, big := awkwardDirs(nroot)
+	nameBufs := []uint32{24, 26, 30, 50, 64, 100, 304, 2048}
+	bigBufs := []uint32{64, 256, 1000, 2048}
+	for _, d := range small {
+		for _, b := range nameBufs {
+			tasks = append(tasks, task{d, b, "nseq", nroot})
+		}
+	}
+	for _, d := range big {
+		for _, b := range bigBufs {
+			tasks = append(tasks, task{d, b, "big", nroot})
 		}
 	}
 	locals := make([]rdLocal, len(tasks))
@@ -485,17 +574,30 @@ func readdirExplore(run *fw.Run, outcomes *fw.Counter, samples *fw.Sampler) rdSt
 		t := tasks[i]
 		loc := &locals[i]
 		loc.outcomes = map[string]int64{}
-		if i >= nSeqTasks {
+		if t.kind == "mut" {
 			mutationTask(w, t.d.lens, t.b, loc)
 			return
 		}
-		in := w.rt.instantiate(root)
+		in := w.rt.instantiate(t.root)
 		defer in.close()
+		if t.kind == "big" {
+			if v := traverse(in, t.d, t.b, loc, false); v != nil {
+				loc.viol = append(loc.viol, *v)
+			}
+			return
+		}
+		plans := plans
+		if t.kind == "nseq" {
+			plans = []plan{{nil, 3}}
+			if run.Thorough() {
+				plans = []plan{{nil, 4}}
+			}
+		}
 		// buf_len below a dirent header is rejected before anything else
 		if t.b == 24 {
 			fd, _ := openDir(in, t.d)
 			if r := in.readdir(fd, 23, 0); r.Errno != eINVAL {
-				loc.viol = append(loc.viol, rdViolation{sig: "fd_readdir:buf_len<24:errno", what: fmt.Sprintf("buf_len=23 -> errno %d, model: EINVAL", r.Errno), c: readdirCase{Lens: t.d.lens, Seq: []rdStep{{23, 0, "start"}}}})
+				loc.viol = append(loc.viol, rdViolation{sig: "fd_readdir:buf_len<24:errno", what: fmt.Sprintf("buf_len=23 -> errno %d, model: EINVAL", r.Errno), c: readdirCase{Lens: t.d.lens, Names: t.d.names, Seq: []rdStep{{23, 0, "start"}}}})
 			}
 			loc.calls++
 			loc.outcomes[fmt.Sprintf("fd_readdir:buf_len<24:errno=%d", eINVAL)]++
@@ -542,6 +644,7 @@ func readdirExplore(run *fw.Run, outcomes *fw.Counter, samples *fw.Sampler) rdSt
 		"directories": len(dirs), "dir_sizes": "0..6", "name_lengths": []int{1, 8, 40}, "buf_lens": fmt.Sprintf("24..%d + {130,200,512,2048}", 24+41*2),
 		"cookie_choices":            "rewind, re-read, every d_next of the last window (continue / skip truncated), stale, invalid",
 		"mutation_between_listings": fmt.Sprintf("mutations %v x buf_len %v x every traversal prefix (0 calls .. complete), then rewound traversal on the same descriptor", mutations, mutBufs),
+		"awkward_name_directories":  fmt.Sprintf("%d directories (all subsets of size 0..2 of %d awkward names, sliding windows of size 3 and 4) x buf_len %v x every cookie sequence of depth 3 (thorough 4) + traversal; %d large directories (100 plain names + \"..a\" created first/middle/last) x buf_len %v, complete traversal", len(small), len(awkwardNames)-1, nameBufs, len(big), bigBufs),
 		"plans(alternative buf_lens after the first call, depth)": fmt.Sprint(plans),
 	}
 	return st
@@ -566,7 +669,13 @@ func replayReaddir(c *readdirCase) int {
 		return 0
 	}
 	root := filepath.Join(tmpRoot, "rd")
-	d := makeDir(root, c.Lens)
+	var d *dirInfo
+	if c.Names != nil {
+		root = filepath.Join(fastRoot, "rdn")
+		d = makeDirNames(root, "n", c.Names)
+	} else {
+		d = makeDir(root, c.Lens)
+	}
 	w := newWorker(0)
 	in := w.rt.instantiate(root)
 	defer in.close()
